@@ -130,6 +130,10 @@ class Fragment:
             for domain in self.iter_domains():
                 if domain not in subfrag.domains:
                     subfrag.add_domains(self.domains[domain])
+                elif isinstance(subfrag, (Instance, IOBufferInstance)):
+                    # Instances cannot define domains; a domain found here was propagated into
+                    # this (user-owned, reused) object by an earlier elaboration and is stale.
+                    subfrag.domains[domain] = self.domains[domain]
 
             subfrag._propagate_domains_down(hierarchy + (hier_name,))
 
